@@ -251,8 +251,13 @@ func runObligations(reps []*FuncReport, cfg runCfg) {
 				}
 				var res SolveResult
 				if o.ExpectSat {
+					// vacuity: a model is expected; "unsat" is the only bad answer, so a short limit suffices
 					o.Query = j.rep.s.Query(full, "", nil)
-					res = Solve(o.Query, cfg.timeout, cfg.seed, cfg.tmp, tag, []int{0, 1, 2})
+					vt := cfg.timeout
+					if vt > 6 {
+						vt = 6
+					}
+					res = Solve(o.Query, vt, cfg.seed, cfg.tmp, tag, []int{0, 1, 2})
 				} else {
 					// first attempt: hypotheses sliced by relevance (sound: dropping hypotheses
 					// can only make a proof harder); fall back to the full set
@@ -354,9 +359,11 @@ func cmdCheck(args []string) int {
 	}
 	to := *timeout
 	if to == 0 {
-		to = 20
+		// obligations on the unchanged tree discharge in well under 20 s on an idle machine; the
+		// limit is generous so that a loaded machine does not turn a slow proof into a false alarm
+		to = 45
 		if *tier == "thorough" {
-			to = 90
+			to = 120
 		}
 	}
 	dirs := findContractDirs(*root)
